@@ -47,20 +47,6 @@ def convoluteCk (g f : Expr) (c : Nat) (st : SStack) : Except Err (Expr × Nat) 
     else .error (sideErr "fresh composition variable")
   | _, _ => .error (.internal "Exception")
 
-/-- `First(seq, …)`: `some (some seq)`; `First()`: `some none`; anything else: `none` -/
-def firstArg? : Expr → Option (Option Expr)
-  | .call (.name n) args _ _ => if n = "First" then (match args with | first :: _ => some (some first) | [] => some Option.none) else Option.none
-  | _ => Option.none
-
-/-- a call of a function by name: its name and positional arguments -/
-def opCall? : Expr → Option (String × List Expr)
-  | .call (.name n) pargs _ _ => some (n, pargs)
-  | _ => Option.none
-
-def isLam : Expr → Bool
-  | .lam _ _ => true
-  | _ => false
-
 mutual
 def simpCk : Nat → SStack → Nat → Expr → Except Err (Expr × Nat)
   | 0, _, _, _ => .error .fuel
